@@ -106,24 +106,6 @@ theorem ws_invariant (e : BEnv) (Γ : Ctx) (cfg : ParserConfig) (m : XmlMeta) (h
       parseNode_tail e Γ cfg _ q a n t' kids tl tl' htl]
   simp only [parseNode, parseKids_tailEq e Γ cfg m none kids kids' hk]
 
-/-- indentation: `ws₀` becomes the text of the element, every child without significant
-tail gets the tail `ws` -/
-def indentKid (e : Env) (ws : Str) : Tree → Tree
-  | .node q a n t c tl => .node q a n t c (if (normalizeContent e tl).isNone then some ws else tl)
-
-def indent (e : Env) (ws₀ ws : Str) : Tree → Tree
-  | .node q a n _ c tl => .node q a n (some ws₀) (c.map (indentKid e ws)) tl
-
-theorem kidsEq_indent (e : Env) (ws : Str) (hws : e.strip ws = []) :
-    ∀ kids : List Tree, KidsEq e kids (kids.map (indentKid e ws))
-  | [] => .nil
-  | .node q a n t c tl :: rest => by
-    refine .cons ?_ (kidsEq_indent e ws hws rest)
-    refine .mk q a n t c tl _ ?_
-    cases h : normalizeContent e tl with
-    | none => simp [normalizeContent_ws e ws hws]
-    | some s => simp [h]
-
 /-- **indent_invariant**: pretty-printing an element with element-only content (any text
 `ws₀` before the first child, white space `ws` after every child) does not change the
 result, for every environment's notion of white space. -/
